@@ -74,7 +74,8 @@ def evaluate(case):
                                    % (scores[v, j], v, j, where), labels)
                     if scores[v, j] < 0:
                         return bad("negative intersection score at [%d,%d]; %s" % (v, j, where), labels)
-        result = lib_call(dsw.remove_nasty_arc, accessor=accessor, latter_map=latter_map, iteration=step,
+        result = lib_call(dsw.remove_nasty_arc, _twice=False, accessor=accessor, latter_map=latter_map,
+                          iteration=step,
                           has_insertion=ins, has_deletion=dele)
         if isinstance(result, Raised):
             labels.append("ended_by:" + result.name)
